@@ -82,8 +82,16 @@ func readSDB(store db.DB, root []byte, w *tl.SDBWorld, m *tl.SDBModel) (string, 
 	return "", n
 }
 
-func (ck *checker) runSDBHistory(class string, w *tl.SDBWorld, blocks []*tl.SDBBlock) bool {
+func (ck *checker) runSDBHistory(class string, w *tl.SDBWorld, blocks []*tl.SDBBlock) (held bool) {
 	c := ck.c
+	at := 0
+	defer func() {
+		if e := recover(); e != nil {
+			c.Violation("panic/sdb", fmt.Sprintf("[%s] block %d: statedb/trie panicked: %v", class, at, e),
+				replayCase{Part: "sdb", Class: class, SDB: &sdbReplay{World: w, Blocks: blocks[:at+1]}})
+			held = false
+		}
+	}()
 	rc := func(upTo int, note string) replayCase {
 		return replayCase{Part: "sdb", Class: class, SDB: &sdbReplay{World: w, Blocks: blocks[:upTo]}, Note: note}
 	}
@@ -96,6 +104,7 @@ func (ck *checker) runSDBHistory(class string, w *tl.SDBWorld, blocks []*tl.SDBB
 	var snaps []tl.SDBSnapshot
 	r := c.Rand("sdb-old/" + class)
 	for i, b := range blocks {
+		at = i
 		nr, err := tl.ApplySDBBlock(store, root, w, b)
 		if err != nil {
 			viol("update-error", i+1, err.Error())
